@@ -14,6 +14,11 @@ import Gribi.Gen.AddIPv6
 import Gribi.Gen.AddMPLS
 import Gribi.Gen.AddNextHopGroup
 import Gribi.Gen.AddNextHop
+import Gribi.Gen.DeleteIPv4
+import Gribi.Gen.DeleteIPv6
+import Gribi.Gen.DeleteMPLS
+import Gribi.Gen.DeleteNextHopGroup
+import Gribi.Gen.DeleteNextHop
 namespace Gribi.GenEquiv.RibTable
 open Gribi Gribi.Gen
 
@@ -161,8 +166,74 @@ theorem gen_addNextHop (e : Option NHEntryC) (explicitReplace : Bool) (rr : Opti
     cases checkOk <;> cases doErr <;> cases hook <;>
     simp [addNextHop.join1, addNextHop.join1.join2, addNextHop.join3, addNextHop.join3.join4, addNextHop_loop1, addNextHop_loop2]
 
+
+/-! ### the table-level deletes -/
+
+/-- the common shape of the five table-level deletes: nil checks, the kind's own refusal of a key
+that names nothing (`preErr`: group id 0, next-hop index 0, a label that is not a uint64 or exceeds
+32 bits), schema validation of the key (top-level entries), the semantic check (`checkFn` =
+`canDelete`), and only then the removal and one post-change notification carrying the entry that
+was installed (nil when none was). The payload of the request is never looked at. -/
+def tableDelSpec (kind : Nat) (preErr useKeyErr : Bool) (eNil : Bool) (rr installed : Option Unit) (keyErr : Option Status)
+    (checkFn : Option Unit) (checkOk : Bool) (checkErr : Option Status) (hook : Option Unit) (name : String) :
+    Bool × Option Unit × Option Status × List Eff :=
+  if eNil || rr.isNone then (false, none, some ⟨.Unknown, .none⟩, [])
+  else if preErr then (false, none, some ⟨.Unknown, .none⟩, [])
+  else if useKeyErr && keyErr.isSome then (false, none, keyErr, [])
+  else if checkFn.isSome && checkErr.isSome then (false, none, checkErr, [])
+  else if checkFn.isSome && !checkOk then (false, none, none, [])
+  else (true, installed, none,
+    [Eff.tableDel kind] ++ (if hook.isSome then [Eff.postHookDel constants_Delete name installed] else []))
+
+/-- `DeleteIPv4` has the common shape -/
+theorem gen_deleteIPv4 (e : Option IPv4EntryC) (rr installed : Option Unit) (keyErr : Option Status) (checkFn : Option Unit) (checkOk : Bool)
+    (checkErr : Option Status) (hook : Option Unit) (name : String) (now : Int) (isUint : Bool) :
+    Gen.deleteIPv4 e rr installed keyErr checkFn checkOk checkErr hook name now isUint =
+      tableDelSpec 4 (false) true e.isNone rr installed keyErr checkFn checkOk checkErr hook name := by
+  unfold Gen.deleteIPv4 tableDelSpec
+  cases e <;> cases rr <;> cases keyErr <;> cases checkFn <;> cases checkErr <;> cases checkOk <;> cases hook <;> cases isUint <;>
+    simp [deleteIPv4.join1] <;> (split <;> simp_all)
+
+/-- `DeleteIPv6` has the common shape -/
+theorem gen_deleteIPv6 (e : Option IPv6EntryC) (rr installed : Option Unit) (keyErr : Option Status) (checkFn : Option Unit) (checkOk : Bool)
+    (checkErr : Option Status) (hook : Option Unit) (name : String) (now : Int) (isUint : Bool) :
+    Gen.deleteIPv6 e rr installed keyErr checkFn checkOk checkErr hook name now isUint =
+      tableDelSpec 6 (false) true e.isNone rr installed keyErr checkFn checkOk checkErr hook name := by
+  unfold Gen.deleteIPv6 tableDelSpec
+  cases e <;> cases rr <;> cases keyErr <;> cases checkFn <;> cases checkErr <;> cases checkOk <;> cases hook <;> cases isUint <;>
+    simp [deleteIPv6.join1] <;> (split <;> simp_all)
+
+/-- `DeleteMPLS` has the common shape -/
+theorem gen_deleteMPLS (e : Option LabelEntryC) (rr installed : Option Unit) (keyErr : Option Status) (checkFn : Option Unit) (checkOk : Bool)
+    (checkErr : Option Status) (hook : Option Unit) (name : String) (now : Int) (isUint : Bool) :
+    Gen.deleteMPLS e rr installed keyErr checkFn checkOk checkErr hook name now isUint =
+      tableDelSpec 1 (!isUint || decide (((e.map (·.LabelUint64)).getD 0) > 4294967295)) true e.isNone rr installed keyErr checkFn checkOk checkErr hook name := by
+  unfold Gen.deleteMPLS tableDelSpec
+  cases e <;> cases rr <;> cases keyErr <;> cases checkFn <;> cases checkErr <;> cases checkOk <;> cases hook <;> cases isUint <;>
+    simp [deleteMPLS.join1] <;> (split <;> simp_all)
+
+/-- `DeleteNextHopGroup` has the common shape -/
+theorem gen_deleteNextHopGroup (e : Option NHGEntryC) (rr installed : Option Unit) (keyErr : Option Status) (checkFn : Option Unit) (checkOk : Bool)
+    (checkErr : Option Status) (hook : Option Unit) (name : String) (now : Int) (isUint : Bool) :
+    Gen.deleteNextHopGroup e rr installed keyErr checkFn checkOk checkErr hook name now isUint =
+      tableDelSpec 2 (decide (((e.map (·.Id)).getD 0) = 0)) false e.isNone rr installed keyErr checkFn checkOk checkErr hook name := by
+  unfold Gen.deleteNextHopGroup tableDelSpec
+  cases e <;> cases rr <;> cases keyErr <;> cases checkFn <;> cases checkErr <;> cases checkOk <;> cases hook <;> cases isUint <;>
+    simp [deleteNextHopGroup.join1] <;> (split <;> simp_all)
+
+/-- `DeleteNextHop` has the common shape -/
+theorem gen_deleteNextHop (e : Option NHEntryC) (rr installed : Option Unit) (keyErr : Option Status) (checkFn : Option Unit) (checkOk : Bool)
+    (checkErr : Option Status) (hook : Option Unit) (name : String) (now : Int) (isUint : Bool) :
+    Gen.deleteNextHop e rr installed keyErr checkFn checkOk checkErr hook name now isUint =
+      tableDelSpec 3 (decide (((e.map (·.Index)).getD 0) = 0)) false e.isNone rr installed keyErr checkFn checkOk checkErr hook name := by
+  unfold Gen.deleteNextHop tableDelSpec
+  cases e <;> cases rr <;> cases keyErr <;> cases checkFn <;> cases checkErr <;> cases checkOk <;> cases hook <;> cases isUint <;>
+    simp [deleteNextHop.join1] <;> (split <;> simp_all)
+
 theorem gen_ribtable_translated :
     Gen.addIPv4_problem = none ∧ Gen.addIPv6_problem = none ∧ Gen.addMPLS_problem = none ∧
-    Gen.addNextHopGroup_problem = none ∧ Gen.addNextHop_problem = none := ⟨rfl, rfl, rfl, rfl, rfl⟩
+    Gen.addNextHopGroup_problem = none ∧ Gen.addNextHop_problem = none ∧
+    Gen.deleteIPv4_problem = none ∧ Gen.deleteIPv6_problem = none ∧ Gen.deleteMPLS_problem = none ∧
+    Gen.deleteNextHopGroup_problem = none ∧ Gen.deleteNextHop_problem = none := ⟨rfl, rfl, rfl, rfl, rfl, rfl, rfl, rfl, rfl, rfl⟩
 
 end Gribi.GenEquiv.RibTable
